@@ -488,6 +488,8 @@ fn main() {
         src.push_str("#[derive(Serialize, Deserialize)]\npub struct Point2 { pub x: i32, pub y: i32 }\n#[derive(Serialize, Deserialize)]\npub struct Sized2 { pub w: u32, pub h: u32 }\n");
         src.push_str("pub mod ipc_cmds {\n    use tauri::ipc::Request;\n    use super::{Point2, Sized2};\n    #[tauri::command]\n    pub fn raw_request(request: Request<'_>, note_text: String) -> u32 { 0 }\n    #[tauri::command]\n    pub fn raw_request_named<'a>(req: Request<'a>, webview_label: String) -> u32 { 0 }\n    #[tauri::command]\n    pub fn destructured(Point2 { x, y }: Point2, crate::Sized2 { w, .. }: Sized2, plain_one: u32) -> u32 { 0 }\n}\n");
         src.push_str("pub mod wrapped {\n    use serde::{Serialize, Deserialize};\n    #[derive(Serialize, Deserialize)]\n    pub struct Request<T> { pub body: T }\n    #[derive(Serialize, Deserialize)]\n    pub struct NewUser { pub name: String }\n}\n#[tauri::command]\npub fn wrapped_request(request: wrapped::Request<u32>, dry_run: bool) -> u32 { 0 }\n");
+        src.push_str("#[derive(Serialize, Deserialize, Clone)]\npub struct Chunk { pub n: u32 }\npub mod bot { #[poise::command(slash_command)]\n    pub fn download() {} }\n#[tauri::command]\npub fn download(url: String, on_chunk: Channel<Chunk>) -> u32 { 0 }\n");
+        src.push_str("#[tauri::command]\npub fn ipc_bare(id: u32, ch: ipc::Channel, win: tauri::window::Window, view: tauri::webview::WebviewWindow) -> u32 { 0 }\n#[tauri::command(rename_all = r\"snake_case\")]\npub fn raw_rule_cmd(user_id: u32, on_event: Channel<u32>) -> u32 { 0 }\n");
         src.push_str("#[tauri::command]\npub fn channel_spellings(id: u32, on_a: tauri::ipc::Channel<u32>, on_b: tauri::ipc::Channel, on_c: ipc::Channel<String>) -> u32 { 0 }\n");
         src.push_str("#[tauri::command]\npub fn opt_paths(plain: Option<u32>, std_path: std::option::Option<u32>, core_path: core::option::Option<String>, abs_path: ::std::option::Option<bool>, required: u32) -> u32 { 0 }\n");
         src.push_str("#[tauri::command]\npub fn r#move(first_arg: String, r#type: u32, on_event: Channel<u32>) -> u32 { 0 }\n");
@@ -546,6 +548,30 @@ fn main() {
                 if keys != ["channel", "other", "pane", "request"] { return Err(format!("keys {:?}, expected [channel, other, pane, request]: `Request`, `Channel2` and `dto::Window` are user-defined serde structs, not framework types", keys)); }
                 Ok(format!("{:?}", keys))
             });
+            for (obj, sig, want) in [
+                ("DownloadParams", "fn download(url: String, on_chunk: Channel<Chunk>) next to mod bot { #[poise::command] fn download() }", vec!["onChunk", "url"]),
+                ("IpcBareParams", "fn ipc_bare(id: u32, ch: ipc::Channel, win: tauri::window::Window, view: tauri::webview::WebviewWindow)", vec!["ch", "id"]),
+                ("RawRuleCmdParams", "#[tauri::command(rename_all = r\"snake_case\")] fn raw_rule_cmd(user_id: u32, on_event: Channel<u32>)", vec!["on_event", "user_id"]),
+            ] {
+                rep.case("invoke_keys_in_generated_bindings", &format!("{} mode={}", sig, mode), &|| {
+                    let files = generate(&dir, &root.join(format!("inject/out_{}", mode)), mode)?;
+                    let t = files.get("types.ts").ok_or("no types.ts")?;
+                    // the keys of the validated part and of the interface that adds the channel objects, each once
+                    let block: String = t.split("\n\n").filter(|b| b.contains(obj)).collect::<Vec<_>>().join("\n");
+                    if block.is_empty() { return Err(format!("UNPARSED: no declaration of {}", obj)); }
+                    let mut keys: Vec<String> = Vec::new();
+                    for l in block.lines() {
+                        let l = l.trim();
+                        if l.starts_with("export") || l.starts_with('}') || l.starts_with('[') || l.starts_with("//") { continue; }
+                        for part in l.split(',') { if let Some((k, _)) = part.split_once(':') { let k = k.trim().trim_end_matches('?'); if !k.is_empty() && k.chars().all(|c| c.is_alphanumeric() || c == '_') { keys.push(k.to_string()); } } }
+                    }
+                    keys.sort();
+                    let mut uniq = keys.clone(); uniq.dedup();
+                    if mode == "none" && uniq.len() != keys.len() { return Err(format!("a key is declared twice: {:?}", keys)); }
+                    if uniq != want { return Err(format!("keys {:?}; Tauri's command macro reads {:?}", uniq, want)); }
+                    Ok(format!("{:?}", uniq))
+                });
+            }
             for (obj, sig, want) in [
                 ("RawRequestParams", "fn raw_request(request: Request<'_>, note_text: String) after use tauri::ipc::Request", vec!["noteText"]),
                 ("RawRequestNamedParams", "fn raw_request_named<'a>(req: Request<'a>, webview_label: String)", vec!["webviewLabel"]),
@@ -692,6 +718,8 @@ fn main() {
             // serde's rename rules change ASCII letters only
             ("gr\u{f6}\u{df}e", "", Some("gr\u{f6}\u{df}e")), ("ma\u{df}_zahl", "", Some("ma\u{df}_zahl")), ("\u{e9}clair_count", "", Some("\u{e9}clair_count")),
             ("empty_rename", "#[serde(rename = \"\")]", Some("")),
+            ("line_break_rename", "#[serde(rename = \"line\\nbreak\\r!\")]", Some("line\nbreak\r!")),
+            ("split_rename", "#[serde(rename(deserialize = \"in_name\"), rename(serialize = \"outName2\"))]", Some("outName2")),
             ("unicode_escape", "#[serde(rename = \"caf\\u{e9}\")]", Some("caf\u{e9}")),
             ("raw_rename", "#[serde(rename = r#\"say \"hi\"\"#)]", Some("say \"hi\"")),
             ("quote_then_skip_word", "#[serde(rename = \"a\\\"skip\")]", Some("a\"skip")),
@@ -777,6 +805,14 @@ fn main() {
         src.push_str("#[derive(Serialize, Deserialize)]\npub enum WithSkipped { Shown, #[serde(skip)] Hidden, #[serde(skip, rename = \"x\")] HiddenToo, AlsoShown }\n");
         enums.push(("WithSkipped".to_string(), vec!["Shown".to_string(), "AlsoShown".to_string()]));
         cmd_params.push("tm: TagMentions, deo: DeOnly, sd: SerDe, ex: Expecting, ws: WithSkipped".to_string());
+        // rename_all written as a raw string, or split over two items; Self in field types
+        src.push_str("#[derive(Serialize, Deserialize)]\n#[serde(rename_all = r\"camelCase\")]\npub struct RawRule { pub first_field: u32 }\n#[derive(Serialize, Deserialize)]\n#[serde(rename_all(deserialize = \"snake_case\"), rename_all(serialize = \"camelCase\"))]\npub struct SplitRule { pub first_field: u32 }\n#[derive(Serialize, Deserialize)]\n#[serde(rename_all = r#\"kebab-case\"#)]\npub enum RawRuleKind { FastMode, SlowMode }\n");
+        structs.push(("RawRule".to_string(), vec![("firstField".to_string(), false)]));
+        structs.push(("SplitRule".to_string(), vec![("firstField".to_string(), false)]));
+        enums.push(("RawRuleKind".to_string(), vec!["fast-mode".to_string(), "slow-mode".to_string()]));
+        src.push_str("#[derive(Serialize, Deserialize)]\npub struct SelfRef { pub children: Vec<Self>, pub by_name: HashMap<String, Self>, pub self_name: String }\n");
+        structs.push(("SelfRef".to_string(), vec![("children".to_string(), false), ("by_name".to_string(), false), ("self_name".to_string(), false)]));
+        cmd_params.push("rr: RawRule, sr: SplitRule, rrk: RawRuleKind, selfref: SelfRef".to_string());
         // serde attributes given through cfg_attr (the usual way of an optional serde feature) count like plain ones
         src.push_str("#[cfg_attr(feature = \"serde\", derive(Serialize, Deserialize), serde(rename_all = \"camelCase\"))]\npub struct ViaCfgAttr {\n    pub first_name: u32,\n    #[cfg_attr(feature = \"serde\", serde(rename = \"why\"))]\n    pub y_pos: u32,\n    #[cfg_attr(all(feature = \"serde\", not(test)), serde(skip))]\n    pub cache_slot: u32,\n    #[cfg_attr(feature = \"lints\", allow(dead_code))]\n    pub z_pos: u32,\n    #[cfg_attr(feature = \"serde\", doc = \"serde(skip)\")]\n    pub documented_one: u32,\n}\n");
         structs.push(("ViaCfgAttr".to_string(), vec![("firstName".to_string(), false), ("why".to_string(), false), ("zPos".to_string(), false), ("documentedOne".to_string(), false)]));
@@ -813,6 +849,16 @@ fn main() {
                     if got == *lits { Ok(format!("{:?}", got)) } else { Err(format!("literals {:?}, serde's wire names are {:?}", got, lits)) }
                 });
             }
+            rep.case("self_in_a_field_type_names_the_struct", &format!("struct SelfRef {{ children: Vec<Self>, by_name: HashMap<String, Self> }} mode={}", mode), &|| {
+                let files = files.as_ref().map_err(|e| e.clone())?;
+                let t = files.get("types.ts").ok_or("no types.ts")?;
+                let entries = object_entries(t, "SelfRef", mode == "zod").ok_or("UNPARSED: SelfRef not declared")?;
+                for (k, v) in &entries {
+                    if k == "self_name" { continue; }
+                    if !v.contains("SelfRef") || v.replace("SelfRef", "").contains("Self") { return Err(format!("SelfRef.{} is rendered `{}`: `Self` names the struct SelfRef", k, v)); }
+                }
+                Ok(format!("{:?}", entries))
+            });
             rep.case("non_serde_types_not_emitted", &format!("mode={}", mode), &|| {
                 let files = files.as_ref().map_err(|e| e.clone())?;
                 let t = files.get("types.ts").ok_or("no types.ts")?;
@@ -903,6 +949,8 @@ fn main() {
             ("e-if-let-err", ""), ("e-cond", ""), ("e-scrutinee", ""), ("e-and", ""), ("e-assign", ""), ("e-while-cond", ""), ("e-let-else", ""), ("e-tuple", ""), ("e-not", ""), ("e-return", ""), ("e-in-method", ""), ("e-in-inline-module", ""),
             ("s-before", ""), ("s-inner-typed", ""), ("s-after-block", ""), ("s-if-let-bound", ""), ("s-after-if-let", ""), ("s-for-bound", ""), ("s-closure-bound", ""), ("s-rebound-untyped", ""), ("s-match-bound", ""),
             ("d-rest-first", ""), ("d-rest-last", ""), ("d-rest-tail", ""), ("w-shadowed", ""), ("w-shadowed-param", ""), ("w-rebound-in-block", ""),
+            ("y-slice-param", ""), ("y-array-param", ""), ("y-bytes-param", ""), ("y-vec-of-arrays", ""), ("y-neg-int", ""), ("y-neg-float", ""), ("y-suffixed", ""), ("y-raw-struct", ""), ("y-self-struct", ""),
+            ("y-local-struct", ""), ("y-local-in-method", ""), ("y-fn-call-result", ""), ("y-fn-call-vec", ""), ("y-ctor-new", ""),
             ("m-to-owned-untyped", ""), ("m-to-owned-if-let", ""), ("m-to-owned-for", ""), ("m-to-owned-typed", ""), ("m-to-string-untyped", ""), ("m-as-ref-untyped", ""),
             ("v-unit-variant", ""), ("v-struct-variant", ""), ("v-tuple-variant", ""), ("v-qualified-variant", ""), ("v-assoc-const", ""), ("v-ctor-call", ""), ("v-const", ""), ("v-tuple-literal", ""), ("v-unit-struct-path", ""),
             ("v-let-struct-variant", ""), ("v-let-tuple-variant", ""), ("v-let-vec-new", ""), ("v-let-map-new", ""), ("v-let-string-new", ""), ("v-let-fn-call", ""),
@@ -955,11 +1003,15 @@ fn main() {
             pub fn broadcast<T: Serialize + Clone, U>(app: &tauri::AppHandle, rows: Vec<T>, one: Option<T>, pair: (U, u32)) where U: Serialize + Clone { app.emit(\"g-vec-of-param\", rows).ok(); app.emit(\"g-opt-of-param\", one).ok(); app.emit(\"g-tuple-of-param\", pair).ok(); }\n\
             #[derive(Serialize, Clone)]\npub struct LogLine<'a> { pub text: &'a str }\n#[derive(Serialize, Clone)]\npub struct Buffer<const N: usize> { pub used: u32 }\n\
             pub fn borrowed(app: &tauri::AppHandle, line: LogLine<'_>, buf: Buffer<16>) { app.emit(\"l-lifetime-only\", line).ok(); app.emit(\"l-const-only\", buf).ok(); }\n\
-            pub fn partly_unprintable(app: &tauri::AppHandle, src: Vec<Player>) { let items: Vec<_> = src.into_iter().collect(); app.emit(\"u-vec-infer\", items).ok(); let m: HashMap<String, [u32; 3]> = HashMap::new(); app.emit(\"u-map-array\", m).ok(); let t: (Player, [u8; 4]) = todo!(); app.emit(\"u-tuple-array\", t).ok(); let v: Vec<[f64; 3]> = vec![]; app.emit(\"u-vec-array\", v).ok(); }\n\
+            pub fn partly_unprintable(app: &tauri::AppHandle, src: Vec<Player>) { let items: Vec<_> = src.into_iter().collect(); app.emit(\"u-vec-infer\", items).ok(); let m: HashMap<String, [u32; 3]> = HashMap::new(); app.emit(\"u-map-array\", m).ok(); let t: (String, [u8; 4]) = todo!(); app.emit(\"u-tuple-array\", t).ok(); let v: Vec<[f64; 3]> = vec![]; app.emit(\"u-vec-array\", v).ok(); }\n\
             #[derive(Serialize, Deserialize, Clone)]\npub enum JobState { Running, Failed { code: u32 }, Done(u32) }\nimpl JobState { pub const IDLE: JobState = JobState::Running; pub fn fresh() -> Self { JobState::Running } }\npub const MAX_RETRIES: u32 = 3;\n#[derive(Serialize, Deserialize, Clone)]\npub struct Beat;\npub mod inner { pub fn load() -> u32 { 0 } }\n\
             pub fn values(app: &tauri::AppHandle) { app.emit(\"v-unit-variant\", JobState::Running).ok(); app.emit(\"v-struct-variant\", JobState::Failed { code: 1 }).ok(); app.emit(\"v-tuple-variant\", JobState::Done(3)).ok(); app.emit(\"v-qualified-variant\", crate::JobState::Running).ok(); app.emit(\"v-assoc-const\", JobState::IDLE).ok(); app.emit(\"v-ctor-call\", JobState::fresh()).ok(); app.emit(\"v-const\", MAX_RETRIES).ok(); app.emit(\"v-tuple-literal\", (1u32, \"x\")).ok(); app.emit(\"v-unit-struct-path\", crate::Beat).ok();\n\
                 let f = JobState::Failed { code: 2 }; app.emit(\"v-let-struct-variant\", f).ok(); let d = JobState::Done(1); app.emit(\"v-let-tuple-variant\", d).ok(); let v = Vec::new(); app.emit(\"v-let-vec-new\", v).ok(); let m = std::collections::HashMap::new(); app.emit(\"v-let-map-new\", m).ok(); let s = String::new(); app.emit(\"v-let-string-new\", s).ok(); let q = crate::inner::load(); app.emit(\"v-let-fn-call\", q).ok(); }\n\
             #[derive(Serialize, Deserialize, Clone)]\npub struct RawSample { pub raw: u32 }\n#[derive(Serialize, Deserialize, Clone)]\npub struct SampleView { pub shown: String, pub unit: SampleUnit }\n#[derive(Serialize, Deserialize, Clone)]\npub enum SampleUnit { Metric }\nimpl SampleView { pub fn from(_r: RawSample) -> Self { todo!() } }\n\
+            pub fn array_payloads(app: &tauri::AppHandle, players: &[Player], pair: [Player; 2], bytes: &[u8]) { app.emit(\"y-slice-param\", players).ok(); app.emit(\"y-array-param\", pair).ok(); app.emit(\"y-bytes-param\", bytes).ok(); let grid: Vec<[u8; 3]> = vec![]; app.emit(\"y-vec-of-arrays\", grid).ok(); app.emit(\"y-neg-int\", -1).ok(); app.emit(\"y-neg-float\", -0.5).ok(); app.emit(\"y-suffixed\", 5u64).ok(); }\n\
+            #[derive(Serialize, Deserialize, Clone)]\npub struct r#Move { pub dx: i32 }\n\
+            impl r#Move { pub fn announce(&self, app: &tauri::AppHandle) { app.emit(\"y-raw-struct\", r#Move { dx: 1 }).ok(); app.emit(\"y-self-struct\", Self { dx: 2 }).ok(); #[derive(Serialize, Clone)] struct MethodLocal { n: u32 } app.emit(\"y-local-in-method\", MethodLocal { n: 1 }).ok(); } pub fn count() -> usize { 0 } pub fn all() -> Vec<r#Move> { vec![] } pub fn new() -> Self { Self { dx: 0 } } }\n\
+            pub fn local_payload(app: &tauri::AppHandle) { #[derive(Serialize, Clone)]\n#[serde(rename_all = \"camelCase\")]\nstruct LocalProgress { bytes_done: u64, stage: LocalStage }\n#[derive(Serialize, Clone)]\nenum LocalStage { Started, Done }\napp.emit(\"y-local-struct\", LocalProgress { bytes_done: 0, stage: LocalStage::Started }).ok(); let total = r#Move::count(); app.emit(\"y-fn-call-result\", total).ok(); let every = r#Move::all(); app.emit(\"y-fn-call-vec\", every).ok(); let fresh = r#Move::new(); app.emit(\"y-ctor-new\", fresh).ok(); }\n\
             pub fn methods_on_untyped(app: &tauri::AppHandle, name: &str, last: Option<String>, all: Vec<String>) { let label = format!(\"job {}\", 1); app.emit(\"m-to-owned-untyped\", label.to_owned()).ok(); if let Some(previous) = last { app.emit(\"m-to-owned-if-let\", previous.to_owned()).ok(); } for entry in all { app.emit(\"m-to-owned-for\", entry.to_owned()).ok(); } app.emit(\"m-to-owned-typed\", name.to_owned()).ok(); app.emit(\"m-to-string-untyped\", label.to_string()).ok(); app.emit(\"m-as-ref-untyped\", label.as_ref()).ok(); }\n\
             pub fn shadowing(app: &tauri::AppHandle, reading: RawSample) { let sample = RawSample { raw: 1 }; let sample = SampleView::from(sample); app.emit(\"w-shadowed\", &sample).ok(); let reading: SampleView = SampleView::from(reading); app.emit(\"w-shadowed-param\", reading).ok(); let value: u32 = 1; { let value: String = String::new(); app.emit(\"w-rebound-in-block\", value).ok(); } let _ = value; }\n\
             pub fn used_results(app: &tauri::AppHandle, flag: bool, v: Option<u32>) -> Result<(), tauri::Error> { if let Err(e) = app.emit(\"e-if-let-err\", 1u32) { let _ = e; } if app.emit(\"e-cond\", 1u32).is_err() { } match app.emit(\"e-scrutinee\", 1u32) { Ok(_) => {}, Err(_) => {} } let _ok = flag && app.emit(\"e-and\", 1u32).is_ok(); let mut r; r = app.emit(\"e-assign\", 1u32); let _ = r; while app.emit(\"e-while-cond\", 1u32).is_err() { break; } let Some(_x) = v else { app.emit(\"e-let-else\", 1u32).ok(); return Ok(()); }; let _t = (app.emit(\"e-tuple\", 1u32), 2); let _n = !app.emit(\"e-not\", 1u32).is_ok(); return app.emit(\"e-return\", 1u32); }\n\
@@ -994,7 +1046,7 @@ fn main() {
         for mode in ["none", "zod"] {
             let files = generate(&dir, &root.join(format!("emits/out_{}", mode)), mode);
             rep.case("generated_files_are_lexically_wellformed", &format!("project=emits mode={}", mode), &|| lexical_wellformed(files.as_ref().map_err(|e| e.clone())?));
-            rep.case("type_references_resolve", &format!("project=emits mode={}", mode), &|| references_resolve(files.as_ref().map_err(|e| e.clone())?, &["Player", "Holder", "ScanReport", "ReportLine", "Ticket", "SyncStarted", "SyncFinished", "SyncReport", "TagOnlyInSets"]));
+            rep.case("type_references_resolve", &format!("project=emits mode={}", mode), &|| references_resolve(files.as_ref().map_err(|e| e.clone())?, &["Player", "Holder", "ScanReport", "ReportLine", "Ticket", "SyncStarted", "SyncFinished", "SyncReport", "TagOnlyInSets", "Move", "LocalProgress", "LocalStage", "MethodLocal"]));
             rep.case("mentioned_project_types_are_declared", &format!("project=emits mode={}", mode), &|| {
                 let files = files.as_ref().map_err(|e| e.clone())?;
                 let exp = exports_of(files.get("types.ts").ok_or("no types.ts")?);
@@ -1020,9 +1072,12 @@ fn main() {
                     ("e-if-let-err", "number"), ("e-cond", "number"), ("e-scrutinee", "number"), ("e-and", "number"), ("e-assign", "number"), ("e-while-cond", "number"), ("e-let-else", "number"), ("e-tuple", "number"), ("e-not", "number"), ("e-return", "number"), ("e-in-method", "number"), ("e-in-inline-module", "number"),
                     ("s-before", "types.Player"), ("s-inner-typed", "types.ScanReport"), ("s-after-block", "types.Player"), ("s-if-let-bound", "unknown || number"), ("s-after-if-let", "types.Player"), ("s-for-bound", "unknown || number"), ("s-closure-bound", "unknown || number"), ("s-rebound-untyped", "unknown || number"), ("s-match-bound", "unknown || number"),
                     ("w-shadowed", "types.SampleView"), ("w-shadowed-param", "types.SampleView"), ("w-rebound-in-block", "string"),
+                    ("y-slice-param", "types.Player[]"), ("y-array-param", "types.Player[]"), ("y-bytes-param", "number[]"), ("y-vec-of-arrays", "number[][]"), ("y-neg-int", "number"), ("y-neg-float", "number"), ("y-suffixed", "number"),
+                    ("y-raw-struct", "types.Move"), ("y-self-struct", "unknown || types.Move"), ("y-local-struct", "types.LocalProgress"), ("y-local-in-method", "types.MethodLocal"),
+                    ("y-fn-call-result", "unknown || number"), ("y-fn-call-vec", "unknown || types.Move[]"), ("y-ctor-new", "unknown || types.Move"),
                     ("m-to-owned-untyped", "unknown || string"), ("m-to-owned-if-let", "unknown || string"), ("m-to-owned-for", "unknown || string"), ("m-to-owned-typed", "unknown || string"), ("m-to-string-untyped", "unknown || string"), ("m-as-ref-untyped", "unknown"),
                     ("d-rest-first", "unknown || types.Player"), ("d-rest-last", "unknown || types.ScanReport"), ("d-rest-tail", "unknown || number"),
-                    ("u-vec-infer", "unknown"), ("u-map-array", "unknown || Record<string, number[]>"), ("u-tuple-array", "unknown || [types.Player, number[]]"), ("u-vec-array", "unknown || number[][]"),
+                    ("u-vec-infer", "unknown"), ("u-map-array", "unknown || Record<string, number[]>"), ("u-tuple-array", "unknown || [string, number[]]"), ("u-vec-array", "unknown || number[][]"),
                     ("s-path-struct", "types.Player"), ("s-path-struct-2", "types.Player"), ("s-bare-struct", "types.Player"),
                     ("t-typed-late-init", "types.Player"), ("t-typed-late-init-2", "number"), ("z-sync-status", "unknown"), ("z-tags", "types.TagOnlyInSets[]")];
                 for (name, ty) in want {
@@ -1416,6 +1471,7 @@ fn main() {
             #[derive(Serialize, Deserialize, Clone)]\n#[serde(into = \"u64\", try_from = \"u64\")]\npub struct LocalStamp {{ pub secs: u64, pub zone: LocalZone, pub parts: Vec<LocalParts> }}\n#[derive(Serialize, Deserialize, Clone)]\npub struct LocalZone {{ pub offset: i32 }}\n#[derive(Serialize, Deserialize, Clone)]\npub struct LocalParts {{ pub hi: u32, pub lo: LocalPartsLow }}\n#[derive(Serialize, Deserialize, Clone)]\npub struct LocalPartsLow {{ pub lo: u32 }}\n\
             #[derive(Serialize, Deserialize, Clone)]\npub struct Visit {{ pub big: i128, pub bigs: Vec<Option<i128>>, pub blob: Vec<u8>, pub at: LocalStamp, pub earlier: Vec<Option<LocalStamp>>, #[serde(with = \"stamp_fmt\")] pub due: Timestamp, #[serde(serialize_with = \"ser_ids\", deserialize_with = \"de_ids\")] pub ids: Vec<Uuid>, #[serde(default, with = \"opt_fmt\")] pub paid: Option<Timestamp> }}\n\
             #[tauri::command]\npub fn visits(first: LocalStamp, zone: LocalZone) -> Vec<Visit> {{ vec![] }}\n\
+            #[derive(Serialize, Deserialize, Clone)]\npub struct Article3 {{ pub created: Stamp3, pub title: String }}\n#[derive(Serialize, Deserialize, Clone)]\npub struct Stamp3 {{ pub batch: Batch3 }}\n#[derive(Serialize, Deserialize, Clone)]\npub struct Batch3 {{ pub items: Vec<Article3> }}\n#[tauri::command]\npub fn batch3() -> Batch3 {{ todo!() }}\n\
             #[derive(Serialize, Deserialize, Clone)]\npub struct Cursor {{ pub pos: u32 }}\n#[tauri::command]\npub fn page(after: Option<Cursor>, before: Option<Vec<Cursor>>, limit: u32, from: Cursor) -> u32 {{ 0 }}\n\
             #[tauri::command]\npub fn deep(shallow: Vec<Vec<Vec<Timestamp>>>, levels: Vec<Vec<Vec<Vec<Vec<Vec<Vec<Vec<Vec<Vec<Vec<Vec<Vec<Vec<Vec<Vec<Vec<Vec<Vec<Vec<Vec<Vec<Vec<Vec<Vec<Vec<Vec<Vec<Vec<Vec<Vec<Vec<Vec<Vec<Vec<Vec<Vec<Vec<Vec<Vec<Timestamp>>>>>>>>>>>>>>>>>>>>>>>>>>>>>>>>>>>>>>>>) -> u32 {{ 0 }}\n\
             #[tauri::command]\npub fn stamps(s: Stamped, first: ext::Stamp, on_stamp: Channel<ext::Stamp>, on_many: Channel<Vec<Option<ext::Stamp>>>) -> Result<Vec<ext::Stamp>, String> {{ Ok(vec![]) }}\n", HDR);
@@ -1428,7 +1484,7 @@ fn main() {
             cfg.project_path = dir.to_string_lossy().to_string();
             cfg.output_path = out.to_string_lossy().to_string();
             cfg.validation_library = mode.to_string();
-            cfg.type_mappings = Some([("Uuid".to_string(), "string".to_string()), ("Timestamp".to_string(), "number".to_string()), ("ext::Stamp".to_string(), "number".to_string()), ("ext::Span".to_string(), "number".to_string()), ("LocalStamp".to_string(), "number".to_string()), ("Option<Cursor>".to_string(), "string".to_string()), ("i128".to_string(), "string".to_string()), ("Vec<u8>".to_string(), "string".to_string())].into_iter().collect());
+            cfg.type_mappings = Some([("Uuid".to_string(), "string".to_string()), ("Timestamp".to_string(), "number".to_string()), ("ext::Stamp".to_string(), "number".to_string()), ("ext::Span".to_string(), "number".to_string()), ("LocalStamp".to_string(), "number".to_string()), ("Option<Cursor>".to_string(), "string".to_string()), ("Stamp3".to_string(), "string".to_string()), ("i128".to_string(), "string".to_string()), ("Vec<u8>".to_string(), "string".to_string())].into_iter().collect());
             let res: Result<BTreeMap<String, String>, String> = generate_from_config(&cfg).map_err(|e| format!("generate_from_config returned Err: {}", e)).and_then(|_| {
                 let mut m = BTreeMap::new();
                 for e in fs::read_dir(&out).map_err(|e| e.to_string())?.flatten() { if e.path().is_file() { m.insert(e.file_name().to_string_lossy().to_string(), fs::read_to_string(e.path()).unwrap_or_default()); } }
@@ -1454,7 +1510,7 @@ fn main() {
                 }
                 Ok("ok".into())
             });
-            rep.case("type_references_resolve", &format!("project=mapped mode={}", mode), &|| references_resolve(res.as_ref().map_err(|e| e.clone())?, &["Account", "Stamped", "Span", "Visit", "LocalZone"]));
+            rep.case("type_references_resolve", &format!("project=mapped mode={}", mode), &|| references_resolve(res.as_ref().map_err(|e| e.clone())?, &["Account", "Stamped", "Span", "Visit", "LocalZone", "Article3", "Batch3"]));
             rep.case("unmapped_types_are_rendered_as_without_the_mapping", &format!("project=mapped mode={} set of declared names", mode), &|| {
                 let files = res.as_ref().map_err(|e| e.clone())?;
                 let out2 = root.join(format!("mapped/out_plain2_{}", mode));
@@ -1467,6 +1523,7 @@ fn main() {
                 let plain = exports_of(&fs::read_to_string(out2.join("types.ts")).map_err(|e| e.to_string())?);
                 let with = exports_of(files.get("types.ts").ok_or("no types.ts")?);
                 for n in &plain {
+                    if ["Stamp3", "Stamp3Schema"].contains(&n.as_str()) { continue; }
                     if ["LocalStamp", "LocalStampSchema", "LocalZone", "LocalZoneSchema", "LocalParts", "LocalPartsSchema", "LocalPartsLow", "LocalPartsLowSchema"].contains(&n.as_str()) { continue; } // the mapped project type and what only it reaches
                     if !with.contains(n) { return Err(format!("`{}` is declared without a mapping table but not with one, although the table does not name it", n)); }
                 }
@@ -1993,6 +2050,50 @@ fn main() {
                 let sch = zod_field(files.get("types.ts").ok_or("no types.ts")?, "Form", key).ok_or(format!("UNPARSED: FormSchema has no key {}", key))?;
                 for alternatives in groups { if !alternatives.iter().any(|a| sch.contains(a)) { return Err(format!("schema of `{}` is `{}`: none of {:?} in it, the declared constraint is dropped", key, sch, alternatives)); } }
                 Ok(sch)
+            });
+        }
+    }
+    // ---- C11: email / url only where they are declared as validators; validate through cfg_attr counts
+    {
+        let src = format!("{}#[derive(Serialize, Deserialize, validator::Validate)]\npub struct Signup {{\n    #[validate(must_match(other = email))]\n    pub confirm: String,\n    #[validate(custom(function = crate::rules::url), length(min = 1))]\n    pub site: String,\n    #[validate(email(message = \"bad\"), url)]\n    pub both: String,\n    #[validate(length(min = 2), email)]\n    pub mail: String,\n    #[cfg_attr(feature = \"validation\", validate(length(min = 3, max = 20), email))]\n    pub gated: String,\n    #[cfg_attr(all(feature = \"validation\", not(test)), validate(range(min = 18, max = 120)))]\n    pub age: u32,\n    pub email: String,\n    pub url: String,\n}}\n#[tauri::command]\npub fn signup(s: Signup) -> u32 {{ 0 }}\n", HDR);
+        let dir = root.join("validators_items/src");
+        write_files(&dir, &[("lib.rs".to_string(), src)]);
+        let files = generate(&dir, &root.join("validators_items/out_zod"), "zod");
+        let wants: [(&str, &str, &[&str], &[&str]); 8] = [
+            ("confirm", "#[validate(must_match(other = email))] pub confirm: String", &[], &[".email(", ".url("]),
+            ("site", "#[validate(custom(function = crate::rules::url), length(min = 1))] pub site: String", &[".min(1"], &[".email(", ".url("]),
+            ("both", "#[validate(email(message = \"bad\"), url)] pub both: String", &[".email(", ".url("], &[]),
+            ("mail", "#[validate(length(min = 2), email)] pub mail: String", &[".email(", ".min(2"], &[".url("]),
+            ("gated", "#[cfg_attr(feature = \"validation\", validate(length(min = 3, max = 20), email))] pub gated: String", &[".email(", ".min(3", ".max(20"], &[".url("]),
+            ("age", "#[cfg_attr(all(feature = \"validation\", not(test)), validate(range(min = 18, max = 120)))] pub age: u32", &[".min(18", ".max(120"], &[".email("]),
+            ("email", "pub email: String (a field called email, no validator)", &[], &[".email(", ".min(", ".max("]),
+            ("url", "pub url: String (a field called url, no validator)", &[], &[".url(", ".min(", ".max("]),
+        ];
+        for (key, decl, must, must_not) in wants {
+            rep.case("validators_are_the_declared_items", decl, &|| {
+                let files = files.as_ref().map_err(|e| e.clone())?;
+                let sch = zod_field(files.get("types.ts").ok_or("no types.ts")?, "Signup", key).ok_or(format!("UNPARSED: SignupSchema has no key {}", key))?;
+                for m in must { if !sch.contains(m) { return Err(format!("schema of `{}` is `{}`: the declared `{}..)` is missing", key, sch, m)); } }
+                for m in must_not { if sch.contains(m) { return Err(format!("schema of `{}` is `{}`: `{}..)` is not declared for this field", key, sch, m)); } }
+                Ok(sch)
+            });
+        }
+    }
+    // ---- C12: a project that only emits events gets its listeners (no command is needed for that)
+    {
+        let src = format!("{}use tauri::Emitter;\n#[derive(Serialize, Clone)]\npub struct Beat2 {{ pub n: u32 }}\npub fn start(app: tauri::AppHandle) {{ app.emit(\"beat\", Beat2 {{ n: 1 }}).ok(); app.emit(\"plain-beat\", 1u32).ok(); }}\n", HDR);
+        let dir = root.join("events_only/src");
+        write_files(&dir, &[("lib.rs".to_string(), src)]);
+        for mode in ["none", "zod"] {
+            let files = generate(&dir, &root.join(format!("events_only/out_{}", mode)), mode);
+            rep.case("events_without_commands_get_their_listeners", &format!("two emits, no #[tauri::command] mode={}", mode), &|| {
+                let files = files.as_ref().map_err(|e| e.clone())?;
+                let ev = files.get("events.ts").ok_or(format!("no events.ts was written (files: {:?})", files.keys().collect::<Vec<_>>()))?;
+                for name in ["beat", "plain-beat"] { if !ev.contains(&format!("('{}',", name)) { return Err(format!("no listener subscribed to '{}'", name)); } }
+                let exp = exports_of(files.get("types.ts").ok_or("no types.ts")?);
+                if !exp.contains("Beat2") && !exp.contains("Beat2Schema") { return Err("the payload type Beat2 is not declared".into()); }
+                if !files.get("index.ts").map_or(false, |i| i.contains("./events")) { return Err("index.ts does not re-export the events module".into()); }
+                references_resolve(files, &["Beat2"])
             });
         }
     }
